@@ -1835,19 +1835,24 @@ func (t *itype) lookupMethod2(name string, seen map[*itype]bool) (*node, []int) 
 		return nil, nil
 	}
 	seen[t] = true
+	// A type is marked only along the current path, so that it can be found again at a lower depth.
+	defer delete(seen, t)
 	if t.cat == ptrT {
 		return t.val.lookupMethod2(name, seen)
 	}
 	var index []int
 	m := t.getMethod(name)
 	if m == nil {
+		// The method at the shallowest depth in the embedded fields is selected.
 		for i, f := range t.field {
 			if f.embed {
-				if n, index2 := f.typ.lookupMethod2(name, seen); n != nil {
-					index = append([]int{i}, index2...)
-					return n, index
+				if n, index2 := f.typ.lookupMethod2(name, seen); n != nil && (m == nil || len(index2) < len(index)-1) {
+					m, index = n, append([]int{i}, index2...)
 				}
 			}
+		}
+		if m != nil {
+			return m, index
 		}
 		if t.cat == linkedT || isInterfaceSrc(t) && t.val != nil {
 			return t.val.lookupMethod2(name, seen)
@@ -1913,16 +1918,21 @@ func (t *itype) lookupBinMethod2(name string, seen map[*itype]bool) (m reflect.M
 		return
 	}
 	seen[t] = true
+	// A type is marked only along the current path, so that it can be found again at a lower depth.
+	defer delete(seen, t)
 	if t.cat == ptrT {
 		return t.val.lookupBinMethod2(name, seen)
 	}
+	// The method at the shallowest depth in the embedded fields is selected.
 	for i, f := range t.field {
 		if f.embed {
-			if m2, index2, isPtr2, ok2 := f.typ.lookupBinMethod2(name, seen); ok2 {
-				index = append([]int{i}, index2...)
-				return m2, index, isPtr2, ok2
+			if m2, index2, isPtr2, ok2 := f.typ.lookupBinMethod2(name, seen); ok2 && (!ok || len(index2) < len(index)-1) {
+				m, index, isPtr, ok = m2, append([]int{i}, index2...), isPtr2, true
 			}
 		}
+	}
+	if ok {
+		return m, index, isPtr, ok
 	}
 	m, ok = t.TypeOf().MethodByName(name)
 	if !ok {
